@@ -243,3 +243,234 @@ pub fn gen_world(r: &mut Rng, k: &Knobs) -> String {
     cmds.push(format!("run {}", now));
     format!("sim {} {}", k.tag, cmds.join(" ; "))
 }
+
+// ------------------------------------------------------------------ scripted responder
+
+use mdns_sd::verif::parser::{encode, MsgDesc, RDataView, RecDesc};
+use std::net::IpAddr;
+
+#[derive(Clone)]
+pub struct Inst {
+    pub ty: String,
+    /// instance label as the user sees it (may contain dots, backslashes, UTF-8)
+    pub label: String,
+    pub host: String,
+    pub port: u16,
+    pub addrs: Vec<IpAddr>,
+    pub txt: Vec<u8>,
+}
+
+impl Inst {
+    /// textual name in the crate's escaped form (what the encoder expects)
+    pub fn escaped(&self) -> String {
+        format!("{}.{}", escape(&self.label), self.ty)
+    }
+}
+
+pub const TXTS: &[&[u8]] = &[b"\x00", b"\x06path=/", b"\x03a=1\x04flag", b"\x05K=v=1\x01k"];
+
+pub fn gen_inst(r: &mut Rng, k: usize) -> Inst {
+    let ty = r.pick(TYPES).to_string();
+    let label = format!("{}{}", r.pick(INSTANCES), k);
+    let host = format!("{}{}", ["srv", "Host", "node"][k % 3], r.pick(&["-a.local.", "-B.local.", ".local."]));
+    let mut addrs: Vec<IpAddr> = vec![format!("192.168.1.{}", 50 + k).parse().unwrap()];
+    if r.chance(1, 3) {
+        addrs.push(format!("192.168.1.{}", 150 + k).parse().unwrap());
+    }
+    if r.chance(1, 4) {
+        addrs.push(format!("fe80::{}", 50 + k).parse().unwrap());
+    }
+    Inst { ty, label, host, port: *r.pick(&[80u16, 8080, 9]), addrs, txt: r.pick(TXTS).to_vec() }
+}
+
+pub struct Ttls {
+    pub ptr: u32,
+    pub srv: u32,
+    pub txt: u32,
+    pub addr: u32,
+}
+
+pub fn recs_of(i: &Inst, t: &Ttls, flush: bool) -> Vec<RecDesc> {
+    let fl = if flush { 0x8001u16 } else { 1 };
+    let mut v = vec![
+        RecDesc { name: i.ty.clone(), ty: 12, class: 1, ttl: t.ptr, rdata: RDataView::Ptr(i.escaped()) },
+        RecDesc {
+            name: i.escaped(),
+            ty: 33,
+            class: fl,
+            ttl: t.srv,
+            rdata: RDataView::Srv { priority: 0, weight: 0, port: i.port, host: i.host.clone() },
+        },
+        RecDesc { name: i.escaped(), ty: 16, class: fl, ttl: t.txt, rdata: RDataView::Txt(i.txt.clone()) },
+    ];
+    for a in &i.addrs {
+        v.push(RecDesc {
+            name: i.host.clone(),
+            ty: if a.is_ipv4() { 1 } else { 28 },
+            class: fl,
+            ttl: t.addr,
+            rdata: RDataView::Addr { ip: *a, if_name: "x".into(), if_index: 0 },
+        });
+    }
+    v
+}
+
+/// one response packet: `answers` in the answer section, `additionals` after them
+pub fn response(answers: &[RecDesc], additionals: &[RecDesc]) -> String {
+    let d = MsgDesc {
+        flags: 0x8400,
+        id: 0,
+        questions: vec![],
+        answers: answers.iter().map(|r| (r.clone(), 0)).collect(),
+        authorities: vec![],
+        additionals: additionals.to_vec(),
+    };
+    let pk = encode(&d).and_then(|v| v.into_iter().next()).unwrap_or_default();
+    hex(&pk)
+}
+
+const TTL_POOL: &[u32] = &[1, 2, 3, 5, 10, 10, 120, 4500];
+
+fn inject(hexpkt: &str) -> String {
+    format!("inject 0 2 1 192.168.1.50 5353 {}", hexpkt)
+}
+
+/// A client daemon (0) with browses / hostname searches and a scripted responder: crafted
+/// announcements (whole, partitioned over several packets in any order, duplicated), updates
+/// with the cache-flush bit, goodbyes, silent vanishing, foreign records, short and long TTLs.
+pub fn gen_scripted(r: &mut Rng, tag: &str, steps: u64, tail: u64, max_dt: u64) -> String {
+    let mut cmds: Vec<String> = vec![format!("daemon {}", ifaces_of(0, r.chance(1, 4)))];
+    cmds.push("ipint 0 100000".to_string());
+    let ninst = r.range(1, 3) as usize;
+    let mut insts: Vec<Inst> = (0..ninst).map(|k| gen_inst(r, k)).collect();
+    if ninst > 1 && r.chance(1, 2) {
+        // instances sharing a host
+        let h = insts[0].host.clone();
+        let a = insts[0].addrs.clone();
+        insts[1].host = h;
+        insts[1].addrs = a;
+    }
+    let mut now = 1_000_000u64;
+    let mut chan = 0u64;
+    cmds.push(format!("run {}", now));
+    // usually browse first
+    if r.chance(5, 6) {
+        chan += 1;
+        cmds.push(format!("browse 0 {} {}", chan, hx(&insts[0].ty)));
+        cmds.push(format!("run {}", now));
+    }
+    for _ in 0..steps {
+        let i = r.below(ninst as u64) as usize;
+        let inst = insts[i].clone();
+        let t = Ttls { ptr: *r.pick(TTL_POOL), srv: *r.pick(TTL_POOL), txt: *r.pick(TTL_POOL), addr: *r.pick(TTL_POOL) };
+        match r.below(14) {
+            0..=2 => {
+                // whole announcement: PTR as answer, rest as additionals (or everything as answers)
+                let recs = recs_of(&inst, &t, true);
+                if r.chance(1, 2) {
+                    cmds.push(inject(&response(&recs[..1], &recs[1..])));
+                } else {
+                    cmds.push(inject(&response(&recs, &[])));
+                }
+            }
+            3 | 4 => {
+                // partitioned over several packets, shuffled, maybe with duplicates
+                let mut recs = recs_of(&inst, &t, r.chance(3, 4));
+                for k in (1..recs.len()).rev() {
+                    let j = r.below(k as u64 + 1) as usize;
+                    recs.swap(k, j);
+                }
+                if r.chance(1, 3) {
+                    let d = recs[r.below(recs.len() as u64) as usize].clone();
+                    recs.push(d);
+                }
+                let parts = r.range(2, 3) as usize;
+                let mut at = 0;
+                for p in 0..parts {
+                    let end = if p + 1 == parts { recs.len() } else { (at + r.range(1, 2) as usize).min(recs.len()) };
+                    if end > at {
+                        cmds.push(inject(&response(&recs[at..end], &[])));
+                        if r.chance(1, 2) {
+                            now += *r.pick(&[0u64, 1, 100, 499, 500, 501, 1000]);
+                            cmds.push(format!("run {}", now));
+                        }
+                    }
+                    at = end;
+                }
+            }
+            5 => {
+                // PTR only: the daemon must ask for the rest itself
+                let recs = recs_of(&inst, &t, true);
+                cmds.push(inject(&response(&recs[..1], &[])));
+            }
+            6 => {
+                // SRV/TXT only or addresses only
+                let recs = recs_of(&inst, &t, true);
+                if r.chance(1, 2) {
+                    cmds.push(inject(&response(&recs[1..3], &[])));
+                } else {
+                    cmds.push(inject(&response(&recs[3..], &[])));
+                }
+            }
+            7 => {
+                // update: new port / TXT / address, cache-flush set
+                let mut ni = inst.clone();
+                match r.below(3) {
+                    0 => ni.port = ni.port.wrapping_add(1),
+                    1 => ni.txt = r.pick(TXTS).to_vec(),
+                    _ => ni.addrs = vec![format!("192.168.1.{}", 200 + i).parse().unwrap()],
+                }
+                insts[i] = ni.clone();
+                let recs = recs_of(&ni, &t, true);
+                cmds.push(inject(&response(&recs[1..], &[])));
+            }
+            8 | 9 => {
+                // goodbye for everything or for a part
+                let z = Ttls { ptr: 0, srv: 0, txt: 0, addr: 0 };
+                let recs = recs_of(&inst, &z, true);
+                match r.below(4) {
+                    0 => cmds.push(inject(&response(&recs[..1], &[]))),
+                    1 => cmds.push(inject(&response(&recs[1..2], &[]))),
+                    2 => cmds.push(inject(&response(&recs[3..], &[]))),
+                    _ => cmds.push(inject(&response(&recs, &[]))),
+                }
+                if r.chance(1, 4) {
+                    cmds.push(cmds.last().unwrap().clone()); // duplicated goodbye
+                }
+            }
+            10 => {
+                // foreign records: a type nobody browses, an unrelated host
+                let mut f = gen_inst(r, 7);
+                f.ty = "_other._tcp.local.".to_string();
+                let recs = recs_of(&f, &t, true);
+                cmds.push(inject(&response(&recs[..1], &recs[1..])));
+            }
+            11 => {
+                chan += 1;
+                match r.below(4) {
+                    0 => cmds.push(format!("stopbrowse 0 {}", hx(&inst.ty))),
+                    1 => cmds.push(format!("browse 0 {} {}", chan, hx(&inst.ty))),
+                    2 => {
+                        let h = if r.chance(1, 2) { inst.host.to_lowercase() } else { inst.host.to_uppercase().replace(".LOCAL.", ".local.") };
+                        let to = if r.chance(1, 2) { "none".to_string() } else { format!("some {}", r.pick(&[1500u64, 4000, 20000])) };
+                        cmds.push(format!("resolve 0 {} {} {}", chan, hx(&h), to));
+                    }
+                    _ => cmds.push(format!("verify 0 {} {}", hx(&format!("{}.{}", inst.label, inst.ty)), r.pick(&[1000u64, 3000, 10000]))),
+                }
+            }
+            12 => {
+                chan += 1;
+                cmds.push(format!("metrics 0 {}", chan));
+            }
+            _ => {}
+        }
+        now += (*r.pick(&[0u64, 1, 400, 500, 800, 999, 1000, 1001, 1600, 2000, 4000, 8000, 9500, 10_000, 96_000, 120_000])).min(max_dt);
+        cmds.push(format!("run {}", now));
+    }
+    now += tail;
+    cmds.push(format!("run {}", now));
+    chan += 1;
+    cmds.push(format!("metrics 0 {}", chan));
+    cmds.push(format!("run {}", now));
+    format!("sim {} {}", tag, cmds.join(" ; "))
+}
